@@ -8,7 +8,7 @@ JOBS = [
     dict(name='ordered', src='c15.cpp', fn='h_ordered', defines=dict(RX, QM_STR_CAP=29, QM_LIST_CAP=2, QM_HASH_CAP=6, VF_LINES=2), unwind=31, mem=20, tiers=['thorough'], unwind_patterns={'CategoryFilter10parseRules': 3, 'CategoryFilter6filter': 3, 'glob_match': 80}, timeout=1500),
     dict(name='ordered3', src='c15.cpp', fn='h_ordered', defines=dict(RX, QM_STR_CAP=44, QM_LIST_CAP=3, QM_HASH_CAP=6, VF_LINES=3), unwind=46, unwind_patterns={'CategoryFilter10parseRules': 4, 'CategoryFilter6filter': 4, 'glob_match': 80}, timeout=3000, tiers=['thorough'], mem=30),
 ]
-BOUNDS = {'quick': 'glob: every rule pattern of <=3 characters over {a,b,.,*,+,(,_,A} x every category of <=4 characters x 5 types; typed: every line [blank]pattern(<=2)[.type][blank]=[tab](true|false)[blank] x category x type; ordered: every list of <=2 (thorough: 3) lines drawn from 10 lines (5 malformed kinds) with ; or newline separators x 6 categories x 5 types',
+BOUNDS = {'quick': 'glob: every rule pattern of <=3 characters over {a,b,.,*,+,(,/,?} x every category of <=4 characters x 5 types; typed: every line [blank]pattern(<=2)[.type][blank]=[tab](true|false)[blank] x category x type; ordered: every list of <=2 (thorough: 3) lines drawn from 10 lines (5 malformed kinds) with ; or newline separators x 6 categories x 5 types',
           'thorough': 'glob with patterns <=4 and categories <=5'}
 OUTSIDE = 'longer rule lists / patterns / categories; non-ASCII categories; rule lines longer than the string capacity'
 ASSUMPTIONS = ['QRegularExpression is the regex model of qtmodel/qm_regex_impl.h (validated against the real engine by vf conform on every expression of the repository)']
